@@ -6,7 +6,8 @@ reference search `Cron.nextCron` whenever both succeed.
   * `secBlock_skip` / `minBlock_skip` / `hourBlock_skip` / `dayLoop_skip` / `monBlock_skip`
                             the exact instant each block of `do_next` produces when no earlier block changed its
                             field (the `resets` list is then the full one), and: every instant passed over has a
-                            disallowed value in that very field
+                            disallowed value in that very field; when the field changes the calendar produced is
+                            STRICTLY later (`T < T'` — the recursion measure of CCronFuel.lean)
   * `stepMinute_skip` … `stepMonth_skip`, `doNext_skip`
                             state between the blocks: the calendar matches every field (a recursion returned it;
                             all later blocks are then the identity: `findNext_id`, `findNextDay_id`) or the resets
@@ -132,12 +133,14 @@ theorem minBlock_skip (e : CExpr) (hw : WF e) (T : Nat) :
     (findNext e.minutes 60 (gmtime T).min (gmtime T) .minute .hour [.second] = (gmtime T, (gmtime T).min)) ∨
     ∃ T' nv, nv ≠ (gmtime T).min ∧
       findNext e.minutes 60 (gmtime T).min (gmtime T) .minute .hour [.second] = (gmtime T', nv) ∧
-      ∀ r, T ≤ r → r < T' → ¬ MatchAt e r := by
+      (∀ r, T ≤ r → r < T' → ¬ MatchAt e r) ∧ T < T' := by
   have hv : (gmtime T).min < 60 := by rw [gmtime_min]; omega
   rcases findNext_exact e.minutes 60 _ (gmtime T) .minute .hour [.second] hv hw.min with
     ⟨h, _⟩ | ⟨nv, a, b, h, hf⟩ | ⟨nv, b, hne, h, hf1, hf2⟩
   · exact Or.inl h
-  · refine Or.inr ⟨T / 3600 * 3600 + nv * 60, nv, by omega, ?_, ?_⟩
+  · refine Or.inr ⟨T / 3600 * 3600 + nv * 60, nv, by omega, ?_, ?_, ?_⟩
+    rotate_left 2
+    · rw [gmtime_min] at a; omega
     · rw [h]
       show (setField (resetMin (gmtime T) .second) .minute nv, nv) = _
       rw [setMin1]
@@ -146,7 +149,7 @@ theorem minBlock_skip (e : CExpr) (hw : WF e) (T : Nat) :
       rw [gmtime_min] at hs a hf
       have := hf (r / 60 % 60) (by omega) (by omega)
       rw [this] at hs; cases hs
-  · refine Or.inr ⟨(T / 3600 + 1) * 3600 + nv * 60, nv, hne, ?_, ?_⟩
+  · refine Or.inr ⟨(T / 3600 + 1) * 3600 + nv * 60, nv, hne, ?_, ?_, by omega⟩
     · rw [h]
       show (setField (resetMin (resetMin (addToField (gmtime T) .hour 1) .minute) .second) .minute nv, nv) = _
       rw [rollMin, setMin0 _ _ (by omega)]
@@ -164,12 +167,14 @@ theorem hourBlock_skip (e : CExpr) (hw : WF e) (T : Nat) :
     (findNext e.hours 24 (gmtime T).hour (gmtime T) .hour .dow [.second, .minute] = (gmtime T, (gmtime T).hour)) ∨
     ∃ T' nv, nv ≠ (gmtime T).hour ∧
       findNext e.hours 24 (gmtime T).hour (gmtime T) .hour .dow [.second, .minute] = (gmtime T', nv) ∧
-      ∀ r, T ≤ r → r < T' → ¬ MatchAt e r := by
+      (∀ r, T ≤ r → r < T' → ¬ MatchAt e r) ∧ T < T' := by
   have hv : (gmtime T).hour < 24 := by rw [gmtime_hour]; omega
   rcases findNext_exact e.hours 24 _ (gmtime T) .hour .dow [.second, .minute] hv hw.hour with
     ⟨h, _⟩ | ⟨nv, a, b, h, hf⟩ | ⟨nv, b, hne, h, hf1, hf2⟩
   · exact Or.inl h
-  · refine Or.inr ⟨T / 86400 * 86400 + nv * 3600, nv, by omega, ?_, ?_⟩
+  · refine Or.inr ⟨T / 86400 * 86400 + nv * 3600, nv, by omega, ?_, ?_, ?_⟩
+    rotate_left 2
+    · rw [gmtime_hour] at a; omega
     · rw [h]
       show (setField (resetMin (resetMin (gmtime T) .second) .minute) .hour nv, nv) = _
       rw [setHour1]
@@ -178,7 +183,7 @@ theorem hourBlock_skip (e : CExpr) (hw : WF e) (T : Nat) :
       rw [gmtime_hour] at hs a hf
       have := hf (r / 3600 % 24) (by omega) (by omega)
       rw [this] at hs; cases hs
-  · refine Or.inr ⟨(T / 86400 + 1) * 86400 + nv * 3600, nv, hne, ?_, ?_⟩
+  · refine Or.inr ⟨(T / 86400 + 1) * 86400 + nv * 3600, nv, hne, ?_, ?_, by omega⟩
     · rw [h]
       show (setField (resetMin (resetMin (resetMin (addToField (gmtime T) .dow 1) .hour) .second) .minute) .hour nv, nv) = _
       rw [rollHour, setHour0 _ _ (by omega)]
@@ -198,7 +203,7 @@ theorem stepMinute_skip (e : CExpr) (hw : WF e) (rec : Tm → Option Tm) (hok : 
       (MatchTm e (gmtime T') ∨ p.2 = [.second, .minute]) := by
   unfold stepMinute at h
   simp only at h
-  rcases minBlock_skip e hw T with hfn | ⟨T1, nv, hne, hfn, hs1⟩
+  rcases minBlock_skip e hw T with hfn | ⟨T1, nv, hne, hfn, hs1, _⟩
   · rw [hfn] at h
     simp only [beq_self_eq_true, if_true, Option.some.injEq] at h
     subst h
@@ -234,7 +239,7 @@ theorem stepHour_skip (e : CExpr) (hw : WF e) (rec : Tm → Option Tm) (hok : Re
     simp only [beq_self_eq_true, if_true, Option.some.injEq] at h
     subst h
     exact ⟨T, rfl, fun r h1 h2 => by omega, Or.inl hm⟩
-  rcases hourBlock_skip e hw T with hfn | ⟨T1, nv, hne, hfn, hs1⟩
+  rcases hourBlock_skip e hw T with hfn | ⟨T1, nv, hne, hfn, hs1, _⟩
   · rw [hfn] at h
     simp only [beq_self_eq_true, if_true, Option.some.injEq] at h
     subst h
@@ -494,7 +499,7 @@ theorem monBlock_skip (e : CExpr) (hw : WF e) (T : Nat) :
       (gmtime T, (gmtime T).mon)) ∨
     ∃ T' nv, nv ≠ (gmtime T).mon ∧
       findNext e.months 12 (gmtime T).mon (gmtime T) .month .year [.second, .minute, .hour, .dom] = (gmtime T', nv) ∧
-      ∀ r, T ≤ r → r < T' → ¬ MatchAt e r := by
+      (∀ r, T ≤ r → r < T' → ¬ MatchAt e r) ∧ T < T' := by
   obtain ⟨b1, b2, b3⟩ := idx_bounds (T / 86400)
   have hmon := mon_of T
   have hv : (gmtime T).mon < 12 := by omega
@@ -503,7 +508,10 @@ theorem monBlock_skip (e : CExpr) (hw : WF e) (T : Nat) :
   · exact Or.inl h
   · obtain ⟨k, hk⟩ : ∃ k, idx (T / 86400) / 12 * 12 + nv = k + 1 :=
       ⟨idx (T / 86400) / 12 * 12 + nv - 1, by omega⟩
-    refine Or.inr ⟨S (k + 1) * 86400, nv, by omega, ?_, ?_⟩
+    refine Or.inr ⟨S (k + 1) * 86400, nv, by omega, ?_, ?_, ?_⟩
+    rotate_left 2
+    · have := S_mono' (i := idx (T / 86400) + 1) (j := k + 1) (by omega) (by omega)
+      omega
     · rw [h, resetAll4, setMon_first _ _ b1 b, hk]
     · intro r h1 h2 hm
       have hs := hm.2.2.2.2.2
@@ -518,7 +526,10 @@ theorem monBlock_skip (e : CExpr) (hw : WF e) (T : Nat) :
   · obtain ⟨j, hj, hj12⟩ := rollMon T
     have hj0 : 23640 ≤ j := by omega
     obtain ⟨k, hk⟩ : ∃ k, j / 12 * 12 + nv = k + 1 := ⟨j / 12 * 12 + nv - 1, by omega⟩
-    refine Or.inr ⟨S (k + 1) * 86400, nv, hne, ?_, ?_⟩
+    refine Or.inr ⟨S (k + 1) * 86400, nv, hne, ?_, ?_, ?_⟩
+    rotate_left 2
+    · have := S_mono' (i := idx (T / 86400) + 1) (j := k + 1) (by omega) (by omega)
+      omega
     · rw [h, hj, setMon_first _ _ hj0 b, hk]
     · intro r h1 h2 hm
       have hs := hm.2.2.2.2.2
@@ -558,7 +569,7 @@ theorem stepMonth_skip (e : CExpr) (hw : WF e) (dot : Nat) (rec : Tm → Option 
     subst h
     rw [timegm_gmtime]
     intro r h1 h2; omega
-  rcases monBlock_skip e hw T with hfn | ⟨T1, nv, hne, hfn, hs1⟩
+  rcases monBlock_skip e hw T with hfn | ⟨T1, nv, hne, hfn, hs1, _⟩
   · rw [hfn] at h
     simp only at h
     rw [bne_self'] at h
